@@ -359,7 +359,7 @@ class StartupRun:
                         async with ctx.resource_added.stream_events(max_queue_size=100000) as stream:
                             listening.set()
                             async for ev in stream:
-                                self.events.append((tuple(TYPES.index(t) for t in ev.resource_types), ev.resource_name,
+                                self.events.append((tuple(TYPES.index(t) if t in TYPES else -1 for t in ev.resource_types), ev.resource_name,
                                                     ev.resource_description, ev.is_factory))
 
                     ltg.start_soon(listen)
